@@ -28,6 +28,15 @@ type family struct {
 
 var families = map[string]*family{}
 
+// run parameters a family may want to know (sock: scratch directory under -out, look-ahead over the planned cases)
+var (
+	runOutDir string
+	runCases  int
+	runSeed   uint64
+	runTier   string
+	runReplay bool
+)
+
 func main() {
 	if len(os.Args) < 2 {
 		fmt.Fprintln(os.Stderr, "usage: qfxh <family> -seed S -n N -out DIR [-tier quick|thorough] [-replay FILE]")
@@ -51,6 +60,7 @@ func main() {
 		fmt.Fprintln(os.Stderr, "unknown family", fam)
 		os.Exit(2)
 	}
+	runOutDir, runCases, runSeed, runTier, runReplay = *dir, *n, *seed, *tier, *replay != ""
 	o := newOut(*dir)
 	im := f.newImpl()
 	if *replay != "" {
